@@ -20,7 +20,8 @@ RULE = ("12-key dictionaries: each key has a valid alphabet (2-3 values) and an 
         "the complete 3-wise product; key orders: all 132 ordered (first, second) choices + reversed order; "
         "one unknown extra key at each of the 13 positions; two entry points. YAML: all spec lists of "
         "length 1..3 (quick 1..2) over a 6-entry alphabet (mode case x transport given/omitted/mixed x 1-2 "
-        "applications). A case is one dictionary or one YAML file; distinct by construction; non-trivial = "
+        "applications); every spec list of 0..2 (thorough 3) valid entries with one invalid entry {unknown application / "
+        "vendor constant, unknown mode, unknown transport, malformed IP, non-integer timeout} at every position. A case is one dictionary or one YAML file; distinct by construction; non-trivial = "
         "every case that differs from the all-first-valid-values dictionary")
 ASSUMPTIONS = [
     "booleans are outside the statement (Python treats them as integers)",
@@ -298,6 +299,74 @@ def judge_yaml(rep, idxs, tmpdir):
     os.unlink(path)
 
 
+# invalid YAML entries: (label, mode, transport, applications, ip of the local node, watchdog text)
+YAML_INVALID = [
+    ("unknown-app-constant", "client", None, [("VENDOR_ID_3GPP", "DIAMETER_APPLICATION_S6b_S6d")], "127.0.0.1", "30"),
+    ("unknown-vendor-constant", "client", None, [("VENDOR_ID_3GGP", "DIAMETER_APPLICATION_S6a_S6d")], "127.0.0.1", "30"),
+    ("unknown-app-constant-second", "server", "tcp", [("VENDOR_ID_3GPP", "DIAMETER_APPLICATION_Gx"), ("VENDOR_ID_3GPP", "gx")], "127.0.0.1", "30"),
+    ("unknown-mode", "proxy", None, [("VENDOR_ID_3GPP", "DIAMETER_APPLICATION_Gx")], "127.0.0.1", "30"),
+    ("unknown-transport", "client", "udp", [("VENDOR_ID_3GPP", "DIAMETER_APPLICATION_Gx")], "127.0.0.1", "30"),
+    ("malformed-ip", "client", None, [("VENDOR_ID_3GPP", "DIAMETER_APPLICATION_Gx")], "127.0.0.256", "30"),
+    ("non-integer-timeout", "client", None, [("VENDOR_ID_3GPP", "DIAMETER_APPLICATION_Gx")], "127.0.0.1", "soon"),
+    ("float-timeout", "client", None, [("VENDOR_ID_3GPP", "DIAMETER_APPLICATION_Gx")], "127.0.0.1", "1.5"),
+]
+
+
+def yaml_invalid_text(inv, position, n_valid):
+    """A spec list of n_valid valid entries with the invalid one inserted at `position`."""
+    label, mode, transport, apps, ip, wd = inv
+    valid = yaml_text([YAML_ENTRIES[i % len(YAML_ENTRIES)] for i in range(n_valid)]).split("\n")
+    head, body = valid[:3], valid[3:]
+    # split the valid entries
+    entries, cur = [], []
+    for ln in body:
+        if ln.startswith("  - ") and cur:
+            entries.append(cur)
+            cur = []
+        if ln:
+            cur.append(ln)
+    if cur:
+        entries.append(cur)
+    bad = ["  - applications:"]
+    for v, a in apps:
+        bad += [f"      - vendor_id: {v}", f"        app_id: {a}"]
+    bad += [f"    mode: {mode}", f"    watchdog_timeout: {wd}"]
+    if transport is not None:
+        bad.append(f"    transport_type: {transport}")
+    bad += ["    local:", f"      ip_address: {ip}", "      hostname: localx.example", "      realm: examplex", "      port: 3999",
+            "    peer:", "      ip_address: 127.0.9.9", "      hostname: peerx.example", "      realm: peerrealmx", "      port: 4999"]
+    entries.insert(position, bad)
+    return "\n".join(head + [ln for e in entries for ln in e]) + "\n"
+
+
+def judge_yaml_invalid(rep, inv, position, n_valid, tmpdir):
+    """A complete YAML spec with one invalid entry must end in the library's configuration error at some
+    stage of file -> descriptions -> connection objects, never in another exception, never accepted."""
+    from bromelia._internal_utils import _convert_file_to_config, _convert_config_to_connection_obj
+    import bromelia.bromelia as BB
+    text = yaml_invalid_text(inv, position, n_valid)
+    path = os.path.join(tmpdir, f"bad_{inv[0]}_{position}_{n_valid}.yaml")
+    with open(path, "w") as f:
+        f.write(text)
+    wit = {"part": "yaml-invalid", "invalid": inv[0], "position": position, "n_valid": n_valid, "yaml": text}
+    try:
+        configs = _convert_file_to_config(path, vars(BB))
+        for c in configs:
+            _convert_config_to_connection_obj(dict(c))
+        err = None
+    except BaseException as e:  # noqa
+        err = e
+    os.unlink(path)
+    if err is None:
+        rep.violation(f"C19:yaml:invalid-accepted:{inv[0]}", f"YAML spec with {inv[0]} was accepted", wit)
+    elif not is_config_error(err):
+        rep.violation(f"C19:yaml:wrong-error:{type(err).__name__}:{inv[0]}",
+                      f"YAML spec with {inv[0]} ended in {type(err).__name__}: {err} instead of the library's "
+                      f"configuration error", wit)
+    else:
+        rep.count("yaml_rejected_properly")
+
+
 def part_yaml(rep, arg):
     maxlen, = arg
     n = 0
@@ -306,6 +375,11 @@ def part_yaml(rep, arg):
             for idxs in itertools.product(range(len(YAML_ENTRIES)), repeat=ln):
                 judge_yaml(rep, idxs, tmpdir)
                 n += 2
+        for inv in YAML_INVALID:
+            for n_valid in range(0, maxlen + 1):
+                for position in range(n_valid + 1):
+                    judge_yaml_invalid(rep, inv, position, n_valid, tmpdir)
+                    n += 1
     rep.add(evaluations=n, distinct=n, yaml_cases=n)
     rep.sample({"yaml_entries": [YAML_ENTRIES[0], YAML_ENTRIES[2]]})
 
@@ -328,6 +402,10 @@ def replay(w):
     if w["part"] == "yaml":
         with tempfile.TemporaryDirectory(prefix="verif_c19_") as tmpdir:
             judge_yaml(rep, tuple(w["entries"]), tmpdir)
+    elif w["part"] == "yaml-invalid":
+        inv = [i for i in YAML_INVALID if i[0] == w["invalid"]][0]
+        with tempfile.TemporaryDirectory(prefix="verif_c19_") as tmpdir:
+            judge_yaml_invalid(rep, inv, w["position"], w["n_valid"], tmpdir)
     else:
         # rebuild the dictionary from the alphabets by matching the recorded representation
         found = False
